@@ -25,6 +25,14 @@ func keyFamilies() []shapeFamily {
 		// the carry on the leading axes
 		fs = append(fs, shapeFamily{[]int{1, m + 2, 3}, []int{2, 2, 3}})
 	}
+	// shapes that gorgonia's Shape.Eq calls equal (a vector, a column and a row of the same length), and shapes
+	// that merely have the same number of elements: "same shape as last time" decided by either is wrong
+	for _, n := range []int{2, 3, 6} {
+		fs = append(fs, shapeFamily{[]int{n}, []int{n, 1}}, shapeFamily{[]int{n, 1}, []int{1, n}}, shapeFamily{[]int{1, n}, []int{n}},
+			shapeFamily{[]int{n}, []int{1, 1, n}}, shapeFamily{[]int{n, 1, 1}, []int{n}})
+	}
+	fs = append(fs, shapeFamily{[]int{2, 3}, []int{3, 2}}, shapeFamily{[]int{6}, []int{2, 3}}, shapeFamily{[]int{2, 3, 2}, []int{3, 2, 2}},
+		shapeFamily{[]int{2, 2, 3}, []int{2, 3, 2}}, shapeFamily{[]int{4, 3}, []int{2, 6}}, shapeFamily{[]int{1, 6}, []int{6, 1}})
 	// digits printed without separator
 	fs = append(fs, shapeFamily{[]int{1, 23}, []int{12, 3}}, shapeFamily{[]int{11, 1}, []int{1, 11}},
 		shapeFamily{[]int{2, 34}, []int{23, 4}}, shapeFamily{[]int{1, 1, 12}, []int{1, 11, 2}}, shapeFamily{[]int{3, 1, 15}, []int{3, 11, 5}})
@@ -60,6 +68,48 @@ func genKeys(e *emitter, prop string, tier string) {
 				for _, dt := range []string{"f32", "i64"} {
 					e.emit(opCase("shape-key-family", "PRelu", nil, []*TJ{neg(dt, f.first), slope(dt, p)}, nil))
 					e.emit(opCase("shape-key-family", "PRelu", nil, []*TJ{neg(dt, f.second), slope(dt, p)}, nil))
+				}
+			}
+		}
+	case "C11":
+		// the same fill value asked for in shapes of one family, one request after the other
+		for _, f := range keyFamilies() {
+			if nelem(f.first) > 4096 || nelem(f.second) > 4096 {
+				continue
+			}
+			for _, val := range []*TJ{nil, vals("i64", []int{1}, 5), vals("f32", []int{1}, -2)} {
+				var attrs []Attr
+				if val != nil {
+					attrs = []Attr{{Name: "value", Type: "t", T: val}}
+				}
+				e.emit(opCase("shape-key-family", "ConstantOfShape", attrs, []*TJ{idxT("i64", []int{len(f.first)}, f.first)}, nil))
+				e.emit(opCase("shape-key-family", "ConstantOfShape", attrs, []*TJ{idxT("i64", []int{len(f.second)}, f.second)}, nil))
+			}
+		}
+	case "C07", "C08":
+		// one operator, the same attributes, two operands of one family in a row
+		for _, f := range keyFamilies() {
+			if nelem(f.first) > 4096 || nelem(f.second) > 4096 {
+				continue
+			}
+			for _, sh := range [][]int{f.first, f.second, f.first} {
+				x := seqT("f32", sh, func(i int) float64 { return float64(i%11 - 5) })
+				r := len(sh)
+				if prop == "C08" {
+					perm := make([]int64, r)
+					for i := range perm {
+						perm[i] = int64((i + 1) % r)
+					}
+					e.emit(opCase("shape-key-family", "Transpose", []Attr{{Name: "perm", Type: "ints", Ints: perm}}, []*TJ{x}, nil))
+					e.emit(opCase("shape-key-family", "Concat", []Attr{{Name: "axis", Type: "i", I: int64(r - 1)}}, []*TJ{x, x}, nil))
+					e.emit(opCase("shape-key-family", "Gather", []Attr{{Name: "axis", Type: "i", I: 0}}, []*TJ{x, idxT("i64", []int{2}, []int{sh[0] - 1, 0})}, nil))
+					e.emit(opCase("shape-key-family", "Slice", nil, []*TJ{x, idxT("i64", []int{1}, []int{0}), idxT("i64", []int{1}, []int{1}), idxT("i64", []int{1}, []int{r - 1})}, nil))
+				} else {
+					e.emit(opCase("shape-key-family", "Flatten", []Attr{{Name: "axis", Type: "i", I: 1}}, []*TJ{x}, nil))
+					e.emit(opCase("shape-key-family", "Reshape", nil, []*TJ{x, idxT("i64", []int{2}, []int{-1, 1})}, nil))
+					e.emit(opCase("shape-key-family", "Reshape", nil, []*TJ{x, idxT("i64", []int{1}, []int{-1})}, nil))
+					e.emit(opCase("shape-key-family", "Shape", nil, []*TJ{x}, nil))
+					e.emit(opCase("shape-key-family", "Unsqueeze", nil, []*TJ{x, idxT("i64", []int{1}, []int{0})}, nil))
 				}
 			}
 		}
